@@ -262,7 +262,7 @@ fn pair(a: Val, b: Val) -> Val {
     Val::P(Box::new(a), Box::new(b))
 }
 
-pub const LEAF_KINDS: [&str; 5] = ["probe", "mutate", "mutate_ref", "recombine", "recombine_ref"];
+pub const LEAF_KINDS: [&str; 7] = ["probe", "mutate", "mutate_ref", "recombine", "recombine_ref", "mutate_dyn", "recombine_dyn"];
 
 fn build(e: &Value, kind: &str) -> DynOp {
     match s(&e["op"]) {
@@ -273,6 +273,17 @@ fn build(e: &Value, kind: &str) -> DynOp {
                 "mutate_ref" => DynOp(Box::new(move |x, mut r| Mutate::new(&p).apply(x, &mut r))),
                 "recombine" => { let m = Recombine::new(p); DynOp(Box::new(move |x, mut r| m.apply(x, &mut r))) }
                 "recombine_ref" => DynOp(Box::new(move |x, mut r| Recombine::new(&p).apply(x, &mut r))),
+                // ... the wrapped part held as a trait object
+                "mutate_dyn" => {
+                    let b: Box<dyn ec_core::operator::mutator::DynMutator<Val, DynErr>> = Box::new(p);
+                    let m = Mutate::new(b);
+                    DynOp(Box::new(move |x, mut r| m.apply(x, &mut r)))
+                }
+                "recombine_dyn" => {
+                    let b: Box<dyn ec_core::operator::recombinator::DynRecombinator<Val, DynErr, Output = Val>> = Box::new(p);
+                    let m = Recombine::new(b);
+                    DynOp(Box::new(move |x, mut r| m.apply(x, &mut r)))
+                }
                 _ => DynOp(Box::new(move |x, mut r| p.apply(x, &mut r))),
             }
         }
@@ -394,7 +405,7 @@ pub fn replay(args: &[String]) -> i32 {
     let (mut n, mut bad) = (0u64, 0u64);
     for (ci, c) in cases.iter().enumerate() {
         // every case with the plain component; the wrapper kinds rotate over the cases
-        let kinds = ["probe", LEAF_KINDS[1 + ci % 4]];
+        let kinds = ["probe", LEAF_KINDS[1 + ci % 6]];
         for kind in kinds {
             n += 1;
             let ob = run_case(&c["case"], kind, ci as u64);
@@ -508,7 +519,7 @@ pub fn trace(args: &[String]) -> i32 {
             continue;
         }
         let fail_at = if total > 0 && rng.random() { rng.random_range(1..=total) } else { 0 };
-        let kind = LEAF_KINDS[rng.random_range(0..5)];
+        let kind = LEAF_KINDS[rng.random_range(0..7)];
         let case = json!({"e": e, "x": x, "failAt": fail_at});
         let ob = run_case(&case, kind, run);
         out.line(&json!({"ev": "apply", "run": run, "case": case, "leaf_kind": kind, "res": ob}));
